@@ -1346,6 +1346,20 @@ impl<'a, S: Suite> W<'a, S> {
                 );
             }
         }
+        // coordinator objects at the edges of the documented domain: a threshold below 2 is refused at
+        // construction; one at the documented maximum group size is legal and simply finds too few commitments
+        for k in [0usize, 1] {
+            let r = guard_c19(self.out, &eng, "call.frost.coordinator_new", || format!("min_signers={}", k), || S::coord_new(k, gpk).is_some());
+            if r == Some(true) {
+                self.viol("reject:coordinator_new", format!("Coordinator::new({}) accepted a threshold below 2", k));
+            }
+        }
+        if let Some(Some(big)) = guard_c19(self.out, &eng, "call.frost.coordinator_new", || "min_signers=65535".into(), || S::coord_new(65535, gpk)) {
+            let r = guard_c19(self.out, &eng, "call.frost.choose", || "threshold 65535, few commitments".into(), || S::coord_choose(big, list));
+            if let Some(Some(_)) = r {
+                self.viol("model:choose", "choose() with threshold 65535 returned a list from a handful of commitments".to_string());
+            }
+        }
         let r5 = guard_c19(self.out, &eng, "call.frost.choose", || "no commitments".into(), || S::coord_choose(c, &empty_l));
         if let Some(Some(_)) = r5 {
             self.viol("model:choose", "choose() returned a list from zero commitments".to_string());
@@ -1612,9 +1626,120 @@ fn kind_name(k: Kind) -> &'static str {
     }
 }
 
+/// A whole signing session with a threshold far above what the networked world can afford (t = n = K, every
+/// signer takes part), driven directly through the API with only the arrival order as a schedule decision:
+/// trusted_split, verify_split, (derive_group_info), commit, choose, sign, verify_signature_share,
+/// assemble_signature, verify - the insertion sort of `choose` over K entries, Lagrange coefficients over K
+/// identifiers, powers k^(K-1) in the share evaluation.
+fn big_threshold_session<S: Suite>(t: &mut Tape, rng: &mut SimRng, out: &mut RunOut, k: usize, derive: bool) {
+    let cls = |w: &str| format!("frost/{}/complete:big_threshold:{}", S::NAME, w);
+    out.probe("probe.frost.big_threshold_direct_session");
+    let gsk = S::gsk_generate(rng);
+    let gpk = S::gsk_public(gsk);
+    let gpk_enc = S::gpk_encode(gpk);
+    let (shares, vss) = match crate::core::guard_raw(|| S::split(rng, gsk, k, k)) {
+        Ok(x) => x,
+        Err(m) => {
+            out.violate("C15", cls("trusted_split"), format!("trusted_split(t=n={}) panicked: {}", k, m));
+            return;
+        }
+    };
+    for _ in 0..3 {
+        let i = t.usize(k);
+        if !S::share_verify_split(shares[i], &vss) {
+            out.violate("C15", cls("verify_split"), format!("share {} of {} fails verify_split (t=n={})", i + 1, k, k));
+        }
+    }
+    let pks: Vec<S::Spk> = if derive {
+        let (p, g2) = S::derive_group_info(k, vss.clone());
+        if S::gpk_encode(g2) != gpk_enc {
+            out.violate("C15", cls("derive_group_info"), "derived group key differs".into());
+        }
+        for i in [0usize, k / 2, k - 1] {
+            if S::spk_encode(p[i]) != S::spk_encode(S::share_public(shares[i])) {
+                out.violate("C15", cls("derive_group_info"), format!("derived key of signer {} differs from its share's (t=n={})", i + 1, k));
+            }
+        }
+        p
+    } else {
+        shares.iter().map(|s| S::share_public(*s)).collect()
+    };
+    // round 1, commitments arrive in a tape-chosen order (rotation + one swap per draw keeps the tape short)
+    let mut nc: Vec<(S::Nonce, S::Comm)> = shares.iter().map(|s| S::share_commit(*s, rng)).collect();
+    let mut order: Vec<usize> = (0..k).collect();
+    order.rotate_left(t.usize(k));
+    for _ in 0..8 {
+        let (a, b) = (t.usize(k), t.usize(k));
+        order.swap(a, b);
+    }
+    if t.chance(1, 2) {
+        order.reverse();
+    }
+    let arrived: Vec<S::Comm> = order.iter().map(|&i| nc[i].1).collect();
+    let coord = match S::coord_new(k, gpk) {
+        Some(c) => c,
+        None => {
+            out.violate("C15", cls("coordinator_new"), format!("Coordinator::new({}) refused", k));
+            return;
+        }
+    };
+    let list = match S::coord_choose(coord, &arrived) {
+        Some(l) if l.len() == k => l,
+        _ => {
+            out.violate("C15", cls("choose"), format!("choose() did not return {} commitments out of {} distinct ones", k, k));
+            return;
+        }
+    };
+    let le = S::comm_encode_list(&list);
+    if !list_wellformed::<S>(&le) {
+        out.violate("C15", cls("choose"), "choose() returned a list that is not strictly ascending".into());
+        return;
+    }
+    let msg = rng.bytes(t.usize(200));
+    let mut sig_shares = Vec::with_capacity(k);
+    for i in 0..k {
+        let (n_i, c_i) = nc[i];
+        match S::share_sign(shares[i], n_i, c_i, &msg, &list) {
+            Some(s) => sig_shares.push(s),
+            None => {
+                out.violate("C15", cls("sign"), format!("signer {} of {} refused to sign a well-formed list containing its commitment", i + 1, k));
+                return;
+            }
+        }
+    }
+    nc.clear();
+    for _ in 0..4 {
+        let i = t.usize(k);
+        if !S::spk_verify_share(pks[i], sig_shares[i], &list, gpk, &msg) {
+            out.violate("C15", cls("verify_signature_share"), format!("genuine share of signer {} of {} refused", i + 1, k));
+        }
+    }
+    // shares handed over in arrival order
+    let shuffled: Vec<S::SigShare> = order.iter().map(|&i| sig_shares[i]).collect();
+    match S::coord_assemble(coord, &shuffled, &list, &pks, &msg) {
+        Some(sig) => {
+            let se = S::sig_encode(sig);
+            let ok = S::gpk_verify(gpk, sig, &msg) && S::gpk_verify_esig(gpk, &se, &msg) && S::indep_verify(&gpk_enc, &se, &msg) && S::plain_verify(&gpk_enc, &se, &msg).unwrap_or(true);
+            if !ok {
+                out.violate("C15", format!("frost/{}/sound:signature:big_threshold", S::NAME), format!("signature of {} signers does not verify: {}", k, crate::util::hex(&se)));
+            }
+            out.ops_completed += 1;
+        }
+        None => out.violate("C15", cls("assemble_signature"), format!("assemble_signature returned None for an honest session of {} signers", k)),
+    }
+}
+
 pub fn run<S: Suite>(t: &mut Tape, cfg: &Cfg, out: &mut RunOut) {
     let eng = format!("frost/{}", S::NAME);
     let mut rng = SimRng::new(t.seed64());
+    if cfg.many && t.chance(1, if cfg.tier == Tier::Thorough { 6 } else { 12 }) {
+        let k = if cfg.tier == Tier::Thorough { [200usize, 256, 257, 300, 400][t.usize(5)] } else { 70 + t.usize(70) };
+        let derive = k <= 260 && S::NAME != "ed448";
+        out.summary = format!("big-threshold direct session, t = n = {}", k);
+        big_threshold_session::<S>(t, &mut rng, out, k, derive);
+        out.force_nontrivial = true;
+        return;
+    }
     // ---- world size
     // (quick tier: about a dozen runs per check at the documented maximum; they cost seconds each)
     let huge = cfg.big_n && t.chance(1, if cfg.tier == Tier::Thorough { 60 } else { 40 });
@@ -1796,6 +1921,16 @@ pub fn run<S: Suite>(t: &mut Tape, cfg: &Cfg, out: &mut RunOut) {
         out.probe("probe.frost.dealer_commitment_vanishing_at_victim");
         let eng = format!("frost/{}", S::NAME);
         if let Some(Some(bad)) = guard_c19(out, &eng, "call.frost.vss_decode_list", || crate::util::hex(&enc), || S::vss_decode_list(&enc)) {
+            // lists of no or one element (a dealer can send anything; decode_list refuses fewer than two, but
+            // verify_split is public and documents no length requirement): must be refused, not panic
+            for l in 0..2usize {
+                let short: Vec<S::Vss> = bad.iter().cloned().take(l).collect();
+                let sh0 = shares[i];
+                let r = guard_c19(out, &eng, "call.frost.verify_split", || format!("{}-element commitment list", l), || S::share_verify_split(sh0, &short));
+                if r == Some(true) {
+                    out.violate("C15", format!("frost/{}/reject:verify_split:short-commitment", S::NAME), format!("verify_split accepted a {}-element commitment list", l));
+                }
+            }
             // the share package comes from the same dealer: once as dealt (its group-key field then differs from
             // the list's constant term), once with the group-key field set to that constant term
             let mut pkg = S::share_encode(shares[i]);
